@@ -98,6 +98,15 @@ def harness(tier, seed):
         inst = rand_instance(rng, max_items=rng.choice([3, 5, 8, 12]))
         W, H = int(inst.bin_width), int(inst.bin_height)
         rows_i = [[int(v) for v in inst[k]] for k in range(inst.n_different_items)]
+        from contracts.binpacking import REQUESTED
+        rq = REQUESTED.pop(id(inst), None)
+        REQUESTED.clear()
+        if rq is not None and (rq[0], rq[1], rq[2]) != (W, H, rows_i):
+            # the instance object must describe the bin and the items it was constructed with: the packings are judged
+            # against what the caller asked for
+            viol.append(("instance/differs-from-constructor-arguments", {"W": rq[0], "H": rq[1], "items": rq[2]},
+                         f"the instance reports bin {W}x{H}, items {rows_i}"))
+            W, H, rows_i = rq[0], rq[1], rq[2]
         for enc, cls in ((1, ImprovedBottomLeftEncoding1), (2, ImprovedBottomLeftEncoding2)):
             encoder = cls(inst)
             y = Packing(inst)
